@@ -6,6 +6,10 @@ CHECKS = {
    text="Workspace.tla is model-checked exhaustively over the property's model alphabet (all invariants, every reachable state); its complete state graph is then replayed edge by edge (edge tour: every state x operation once, shortest path) on a real Workspace and every logged step, plus seeded random histories, is validated against the specification by TLC (Trace_C17).",
    note="Assumes Workspace behaviour depends only on the projected state (hook H1 snapshot) and model identity; trusts TLC, the H1 hook, the harness XML writer.",
    technique="TLA+ spec + TLC model checking; edge-tour replay and trace validation against the real Workspace"),
+ "C18": dict(cat="model_checking", design="DESIGN.md §5 C18",
+   text="Server.tla (Workspace + one action per endpoint + malformed requests) is model-checked; its state graph is toured edge by edge over HTTP against the live in-process service (every state x endpoint, every state x malformed-request kind, with evaluation probes), plus seeded random request sequences; TLC decodes every raw response body with a JSON recogniser written in TLA+ (JsonText.tla) and searches for a Server behaviour that explains each sequence (hidden workspace state inferred). Echo evaluations of TLC-enumerated values via /evaluate and /tck/evaluate are decoded and compared by TLC.",
+   note="Workspace state behind the service is not observable (inferred by TLC); trusts TLC, JsonText.tla (self-tested against an independent corpus), the raw HTTP client of the harness.",
+   technique="TLA+ spec + TLC: edge-tour replay over HTTP, trace validation with hidden state, JSON decoding in TLA+"),
 }
 NOT_YET = {}
 props = [json.loads(l) for l in open('/verif/properties.jsonl')]
